@@ -529,6 +529,9 @@ def oracle_C07(ctx, i):
     if len(want) != n:
         out.append(f"size {n} but the RFC image has {len(want)} bytes")
     for j, (L, fill) in enumerate(meta.get("bufs", [])):
+        if L >= n and I.get(f"w{j}.res") not in (None, f"ok:{n}"):
+            out.append(f"accepted configuration (size {n}) was not written into a {L}-byte buffer: {I.get(f'w{j}.res')}")
+            break
         if I.get(f"w{j}.res") != f"ok:{n}": continue
         got = unhex(I[f"w{j}.buf"])[:n]
         if canon_image(cfg, got) != canon_image(cfg, want):
@@ -917,6 +920,10 @@ def oracle_C11(ctx, i):
     ts = ref_tiling(b)
     r = I.get("res", "")
     out = again_failures(I)
+    for k, v in I.items():
+        if isinstance(v, str) and "panic" in v and k in ("res", "adapt", "n", "after"):
+            out.append(f"{k}={v[:60]}: Compound::parse / iteration panicked on a {len(b)}-byte string whose length chain {'tiles' if ts else 'does not tile'} it")
+            return out
     if (r == "ok") != (ts is not None):
         out.append(f"Compound::parse says {r} but the length chain {'tiles' if ts else 'does not tile'} the {len(b)}-byte string")
         return out
@@ -1090,6 +1097,8 @@ def oracle_C14(ctx, i):
             if canon_image(cfg, got) != canon_image(cfg, want):
                 out.append("bytes are not the concatenation of the members' images")
             break
+    if I.get("rt.res") == "ok":
+        out += adapt_failures({k[3:]: v for k, v in I.items() if k.startswith("rt.") and (k[3:] in ("adapt", "n") or k.endswith(".res"))}, "rt.")
     leaves = gen.flatten(cfg)
     comp = meta.get("leaf_reqs")
     # parsing back is about members that are RTCP packets: a third-party writer whose image is not a
